@@ -23,7 +23,8 @@ THEOREMS = [f"Nice.Props.C10.{t}" for t in (
     "C10_respects_window_partial")] + [f"Nice.Props.C10Kernels.{t}" for t in (
     "C10_model_has_sent_fin_is_code", "C10_model_has_received_fin_is_code", "C10_model_has_received_fin_ack_is_code",
     "C10_fin_ack_implies_both_fins", "C10_open_states_have_no_fin", "C10_model_write_remaining_is_code",
-    "C10_model_buffered_is_code", "C10_buffered_plus_room_is_capacity")]
+    "C10_model_buffered_is_code", "C10_buffered_plus_room_is_capacity",
+    "C10_is_closed_remotely_is_code", "C10_available_send_space_is_code", "C10_no_send_space_after_fin")]
 TRUSTED = [
     "Lean 4 kernel; axioms allowed: propext, Classical.choice, Quot.sound (audited by #print axioms on every run)",
     "hand-written model Nice/Model/PTcp.lean of agent/pseudotcp.c, tied by the ptcp_drv differential stream: every "
